@@ -207,7 +207,7 @@ func acctBarrier(env *core.Env, s *sut.SUT) {
 		if st.Closed {
 			continue
 		}
-		if !st.Dialer && st.Local == s.Addr {
+		if !st.Dialer && st.HandedOut && st.Local == s.Addr {
 			openAccepted++
 		}
 		if st.Dialer && strings.HasPrefix(st.Local, env.Net.IPOf(s.Node)+":") {
